@@ -423,7 +423,7 @@ def decode_vp(arg, r, suffixes):
             continue
         if f == 0 and fm == 0:
             # the exponent cannot be read off a zero: expect the table's own entry
-            return '(VScaled %s (%d)%%Z)' % (cs(m), dict(suffixes).get({'K': 'k'}.get(arg[-1], arg[-1]), 0))
+            return '(VScaled %s (%d)%%Z)' % (cs(m), dict(suffixes).get('M' if arg.endswith('Meg') else {'K': 'k'}.get(arg[-1], arg[-1]), 0))
         for k in range(-30, 31):
             if Fraction(fm * float('1e%d' % k)) == f:
                 return '(VScaled %s (%d)%%Z)' % (cs(m), k)
